@@ -68,6 +68,81 @@ pub trait Decoder {
 }
 '''
 
+TRACE = r'''
+// ---- whole-stream statement (C01, first sentence): chunking independence of the decoder ----
+// dec_step is the conjunction of the PROVED clauses I, H, M1, P1, N1 of the real Streaming::poll_next (generated from the same
+// clause text).  For ANY history of polls that yields messages or is pending - however the body cuts the bytes into DATA
+// frames, however readiness interleaves - the bytes received so far are exactly: the frames of the messages handed out, in
+// order, followed by what is still unparsed; and every message handed out is the decoding of its frame's payload.
+pub open spec fn dec_step<T, DEC: Decoder<Item = T, Error = Status>>(pre: Streaming<T, DEC>, post: Streaming<T, DEC>, r: Poll<Option<Result<T, Status>>>) -> bool {
+    &&& /*STEP*/
+}
+pub open spec fn dec_trace<T, DEC: Decoder<Item = T, Error = Status>>(ss: Seq<Streaming<T, DEC>>, rs: Seq<Poll<Option<Result<T, Status>>>>) -> bool {
+    ss.len() == rs.len() + 1 && forall|i: int| 0 <= i < rs.len() ==> #[trigger] dec_step(ss[i], ss[i + 1], rs[i])
+}
+// the bytes available to poll i: what was unparsed before it plus what the body delivered during it
+pub open spec fn avail<T, DEC: Decoder<Item = T, Error = Status>>(ss: Seq<Streaming<T, DEC>>, i: int) -> Seq<u8> {
+    ss[i].inner.unparsed() + ss[i + 1].inner.body.received@.skip(ss[i].inner.body.received@.len() as int)
+}
+// concatenation of the frames of the messages handed out by the first n polls
+pub open spec fn taken<T, DEC: Decoder<Item = T, Error = Status>>(ss: Seq<Streaming<T, DEC>>, rs: Seq<Poll<Option<Result<T, Status>>>>, n: int) -> Seq<u8>
+    decreases n
+{
+    if n <= 0 || n > rs.len() { Seq::<u8>::empty() }
+    else { taken(ss, rs, n - 1) + (if rs[n - 1] matches Poll::Ready(Some(Ok(_))) { avail(ss, n - 1).take(5 + hdr_len(avail(ss, n - 1))) } else { Seq::<u8>::empty() }) }
+}
+pub proof fn lemma_dec_chunking_independent<T, DEC: Decoder<Item = T, Error = Status>>(ss: Seq<Streaming<T, DEC>>, rs: Seq<Poll<Option<Result<T, Status>>>>, n: int)
+    requires
+        dec_trace(ss, rs), 0 <= n <= rs.len(), !(ss[0].inner.state is Error),
+        forall|i: int| 0 <= i < n ==> !(#[trigger] rs[i] matches Poll::Ready(Some(Err(_)))),
+    ensures
+        !(ss[n].inner.state is Error),
+        ss[n].inner.body.received@.len() >= ss[0].inner.body.received@.len(),
+        ss[n].inner.body.received@.take(ss[0].inner.body.received@.len() as int) == ss[0].inner.body.received@,
+        // conservation: input so far == frames handed out ++ still unparsed
+        ss[0].inner.unparsed() + ss[n].inner.body.received@.skip(ss[0].inner.body.received@.len() as int) == taken(ss, rs, n) + ss[n].inner.unparsed(),
+        // each message handed out is the decoding of the payload of the first frame of what was available
+        forall|i: int| 0 <= i < n ==> (#[trigger] rs[i] matches Poll::Ready(Some(Ok(m))) ==> complete(avail(ss, i))
+            && ss[0].decoder.dec(plain_payload(avail(ss, i), ss[0].inner.encoding)->Some_0) == Some(m)),
+        forall|p: Seq<u8>| ss[n].decoder.dec(p) == ss[0].decoder.dec(p), ss[n].inner.encoding == ss[0].inner.encoding,
+    decreases n
+{
+    let r0 = ss[0].inner.body.received@; let l0 = r0.len() as int;
+    if n == 0 {
+        assert(ss[0].inner.body.received@.skip(l0) =~= Seq::<u8>::empty());
+        assert(ss[0].inner.unparsed() + Seq::<u8>::empty() =~= Seq::<u8>::empty() + ss[0].inner.unparsed());
+        assert(r0.take(l0) =~= r0);
+    } else {
+        lemma_dec_chunking_independent(ss, rs, n - 1);
+        let i0 = n - 1;
+        assert(dec_step(ss[i0], ss[i0 + 1], rs[i0]));
+        let pre = ss[i0]; let post = ss[i0 + 1]; let r = rs[i0];
+        let r1 = pre.inner.body.received@; let r2 = post.inner.body.received@;
+        let w = avail(ss, i0);
+        assert(!(rs[i0] matches Poll::Ready(Some(Err(_)))));
+        assert(r2.take(l0) =~= r0) by { assert(r2.take(r1.len() as int).take(l0) =~= r2.take(l0)); }
+        assert(r2.skip(l0) =~= r1.skip(l0) + r2.skip(r1.len() as int)) by { assert(r2 =~= r2.take(r1.len() as int) + r2.skip(r1.len() as int)); }
+        let inp1 = ss[0].inner.unparsed() + r1.skip(l0);
+        assert(ss[0].inner.unparsed() + r2.skip(l0) =~= inp1 + r2.skip(r1.len() as int));
+        assert(inp1 + r2.skip(r1.len() as int) =~= taken(ss, rs, n - 1) + w) by {
+            assert((taken(ss, rs, n - 1) + pre.inner.unparsed()) + r2.skip(r1.len() as int) =~= taken(ss, rs, n - 1) + (pre.inner.unparsed() + r2.skip(r1.len() as int)));
+        }
+        match r {
+            Poll::Ready(Some(Ok(m))) => {
+                assert(complete(w));
+                assert(w =~= w.take(5 + hdr_len(w)) + after_first(w));
+                assert(taken(ss, rs, n) == taken(ss, rs, n - 1) + w.take(5 + hdr_len(w)));
+                assert(taken(ss, rs, n - 1) + w =~= (taken(ss, rs, n - 1) + w.take(5 + hdr_len(w))) + after_first(w));
+            },
+            _ => {
+                assert(taken(ss, rs, n) =~= taken(ss, rs, n - 1) + Seq::<u8>::empty());
+                assert(taken(ss, rs, n - 1) + Seq::<u8>::empty() =~= taken(ss, rs, n - 1));
+            },
+        }
+    }
+}
+'''
+
 SPECS = r'''
 impl<'a> DecodeBuf<'a> {
     pub open spec fn wf(&self) -> bool { self.len <= (*self.buf)@.len() }
@@ -250,6 +325,24 @@ def build():
     W = 'old(self).inner.unparsed() + final(self).inner.body.received@.skip(old(self).inner.body.received@.len() as int)'
     ENC = 'old(self).inner.encoding'
     LIM = 'old(self).inner.limit()'
+    CL_I = 'final(self).inner.wf() && final(self).inner.same_config(&old(self).inner) && (forall|p: Seq<u8>| final(self).decoder.dec(p) == old(self).decoder.dec(p))'
+    CL_H = 'final(self).inner.body.received@.len() >= old(self).inner.body.received@.len() && final(self).inner.body.received@.take(old(self).inner.body.received@.len() as int) == old(self).inner.body.received@'
+    CL_M1 = f'''!(old(self).inner.state is Error) ==> (r matches Poll::Ready(Some(Ok(m))) ==> {{
+                let w = {W};
+                &&& complete(w) && header_error(w, {ENC}, {LIM}) is None
+                &&& plain_payload(w, {ENC}) is Some
+                &&& old(self).decoder.dec(plain_payload(w, {ENC})->Some_0) == Some(m)
+                &&& final(self).inner.state is ReadHeader
+                &&& final(self).inner.unparsed() == after_first(w)
+            }})'''
+    CL_P1 = f'''!(old(self).inner.state is Error) && r is Pending ==> !(final(self).inner.state is Error)
+                && final(self).inner.unparsed() == {W} && !complete({W})'''
+    CL_N1 = f'''!(old(self).inner.state is Error) ==> (r matches Poll::Ready(None) ==> !complete({W}) && !(final(self).inner.state is Error)
+                && final(self).inner.unparsed() == {W})'''
+    # the step relation of the whole-stream lemma is the conjunction of these PROVED clauses, with old(self) / final(self) renamed
+    def as_step(c):
+        return c.replace('&old(self)', '&pre').replace('old(self)', 'pre').replace('final(self)', 'post')
+    STEP_TEXT = ' &&& '.join('(%s)' % as_step(c) for c in (CL_I, CL_H, CL_M1, CL_P1, CL_N1))
     u.fn(D, 'poll_next', within='impl<T> Stream for Streaming<T>',
          header='impl<T, DEC: Decoder<Item = T, Error = Status>> Streaming<T, DEC> {', close=True,
          attrs=['#[verifier::exec_allows_no_decreases_clause]'],
@@ -284,23 +377,11 @@ def build():
                     'r matches Poll::Ready(Some(Err(_))) ==> final(self).inner.state matches State::Error(None)', ['C07']),
              Clause('F3_parked_status_yielded_once',
                     'old(self).inner.state matches State::Error(Some(s)) ==> r == Poll::Ready(Some(Err::<T, Status>(s))) && final(self).inner.body == old(self).inner.body', ['C02', 'C07']),
-             Clause('I_invariant_kept', 'final(self).inner.wf() && final(self).inner.same_config(&old(self).inner) && (forall|p: Seq<u8>| final(self).decoder.dec(p) == old(self).decoder.dec(p))', ['C01', 'C07']),
-             Clause('H_history_only_grows', 'final(self).inner.body.received@.len() >= old(self).inner.body.received@.len() && final(self).inner.body.received@.take(old(self).inner.body.received@.len() as int) == old(self).inner.body.received@', ['C01', 'C07']),
-             Clause('M1_message_is_next_frame_of_input',
-                    f'''!(old(self).inner.state is Error) ==> (r matches Poll::Ready(Some(Ok(m))) ==> {{
-                let w = {W};
-                &&& complete(w) && header_error(w, {ENC}, {LIM}) is None
-                &&& plain_payload(w, {ENC}) is Some
-                &&& old(self).decoder.dec(plain_payload(w, {ENC})->Some_0) == Some(m)
-                &&& final(self).inner.state is ReadHeader
-                &&& final(self).inner.unparsed() == after_first(w)
-            }})''', ['C01', 'C02', 'C07']),
-             Clause('P1_pending_keeps_everything',
-                    f'''!(old(self).inner.state is Error) && r is Pending ==> !(final(self).inner.state is Error)
-                && final(self).inner.unparsed() == {W} && !complete({W})''', ['C01', 'C07']),
-             Clause('N1_clean_end_skips_no_complete_frame',
-                    f'''!(old(self).inner.state is Error) ==> (r matches Poll::Ready(None) ==> !complete({W}) && !(final(self).inner.state is Error)
-                && final(self).inner.unparsed() == {W})''', ['C01', 'C02', 'C07']),
+             Clause('I_invariant_kept', CL_I, ['C01', 'C07']),
+             Clause('H_history_only_grows', CL_H, ['C01', 'C07']),
+             Clause('M1_message_is_next_frame_of_input', CL_M1, ['C01', 'C02', 'C07']),
+             Clause('P1_pending_keeps_everything', CL_P1, ['C01', 'C07']),
+             Clause('N1_clean_end_skips_no_complete_frame', CL_N1, ['C01', 'C02', 'C07']),
              Clause('E1_illegal_header_refused_at_once',
                     f'''!(old(self).inner.state is Error) && ({W}).len() >= 5 && header_error({W}, {ENC}, {LIM}) is Some
                 ==> (r matches Poll::Ready(Some(Err(st))) && header_error({W}, {ENC}, {LIM}) == Some(st.code))''', ['C05', 'C06', 'C07']),
@@ -309,4 +390,5 @@ def build():
                 header_error({W}, {ENC}, {LIM}) is Some || plain_payload({W}, {ENC}) is None
                 || old(self).decoder.dec(plain_payload({W}, {ENC})->Some_0) is None)''', ['C02', 'C07']),
          ])
+    u.raw(TRACE.replace('/*STEP*/', STEP_TEXT), props=['C01', 'C07'])
     return u
